@@ -78,6 +78,10 @@ class Recogniser:
     def statement(self):
         tok = self.peek()
         if tok.kind == gt.BEGIN:
+            if self.reader == "ISIS" and tok.text.upper().startswith("BEGIN_"):
+                # the ISIS grammar has no BEGIN_GROUP / BEGIN_OBJECT keywords
+                # (and the words are reserved, so they are no names either)
+                raise Ill("begin-keyword-unknown-to-this-dialect")
             return self.block()
         if tok.kind in (gt.NAME, gt.VAL):
             r = role(tok, self.reader)
